@@ -1,18 +1,23 @@
 #!/bin/bash
-# tools/benigncross.sh   every benign patch against every check whose property lives in the package(s) it touches
+# tools/benigncross.sh [pattern]   every benign patch (names matching the pattern) against every check whose
+# property lives in the package(s) it touches, three patches at a time. Resumes: lines already in
+# /tmp/benigncross.done with exit=0 are skipped.
 cd /verif
-declare -A PK=( [logger]="C01 C02 C03 C13 C15" [httpd]="C04 C05 C15" [tasklane]="C06 C07 C08 C14" [util/netutil]="C11 C12" [config]="C09 C10" [util/strutil]="C16" [util/fsutil]="C17" [util/osutil]="C18" [util/ioutil]="C19" [daemon]="C20" )
-for n in $(ls benign); do
+one() {
+  n=$1
+  declare -A PK=( [logger]="C01 C02 C03 C13 C15" [httpd]="C04 C05 C15" [tasklane]="C06 C07 C08 C14" [util/netutil]="C11 C12" [config]="C09 C10" [util/strutil]="C16" [util/fsutil]="C17" [util/osutil]="C18" [util/ioutil]="C19" [daemon]="C20" )
   own=${n%%-*}
   ids=""
   for pk in "${!PK[@]}"; do grep -q "^+++ b/$pk/" benign/$n/patch.diff && ids="$ids ${PK[$pk]}"; done
   D=$(mktemp -d /tmp/ben.XXXXXX)
-  cp -r /repo/. "$D/" && (cd "$D" && git apply /verif/benign/$n/patch.diff) || { echo "$n patch-does-not-apply"; rm -rf "$D"; continue; }
+  cp -r /repo/. "$D/" && (cd "$D" && git apply /verif/benign/$n/patch.diff) || { echo "$n patch-does-not-apply"; rm -rf "$D"; return; }
   for id in $(echo $ids | tr ' ' '\n' | sort -u); do
     [ "$id" = "$own" ] && continue
-    grep -q "^$n vs $id exit=0" /tmp/benigncross.done 2>/dev/null && continue   # resume
-    VERIF_REPO="$D" ./run.sh "$id" quick > /tmp/benx.$n.$id.log 2>&1; rc=$?
+    grep -q "^$n vs $id exit=0" /tmp/benigncross.done 2>/dev/null && continue
+    VERIF_REPO="$D" VERIF_EVIDENCE_DIR=/tmp/verif-evidence-scratch.$n ./run.sh "$id" quick > /tmp/benx.$n.$id.log 2>&1; rc=$?
     echo "$n vs $id exit=$rc $(grep -m1 -A1 -E 'VIOLATION|INFRA-ERROR' /tmp/benx.$n.$id.log | tr '\n' ' ' | cut -c1-260)"
   done
-  rm -rf "$D"
-done
+  rm -rf "$D" /tmp/verif-evidence-scratch.$n
+}
+export -f one
+ls benign | grep -E "${1:-.}" | xargs -P 3 -I{} bash -c 'one {}'
